@@ -55,9 +55,14 @@ zix_create_directories(ZixAllocator* const allocator,
 
       *end = '\0';
       if (zix_file_type(path) != ZIX_FILE_TYPE_DIRECTORY) {
-        if ((st = zix_create_directory(path))) {
+        // (someone else may create the same directory in the meantime)
+        if ((st = zix_create_directory(path)) &&
+            !(st == ZIX_STATUS_EXISTS &&
+              zix_file_type(path) == ZIX_FILE_TYPE_DIRECTORY)) {
           break;
         }
+
+        st = ZIX_STATUS_SUCCESS;
       }
 
       *end = old_last;
